@@ -32,8 +32,9 @@ Norm(j) ==
       [] j.kind \in {"enum_int", "enum_string"}    -> EnumS(j.kind, Range(j.values), j.named, j.spell)
       [] j.kind = "list"   -> ListI(Norm(j.items), j.min, j.max, j.impl)
       [] j.kind = "map"    -> MapI(Norm(j.keys), Norm(j.vals), j.min, j.max, j.impl)
-      [] j.kind = "object" -> ObjectI(j.id, {PropR(p.name, Norm(p.type), p.required, p.has_default, p.disabled, Range(p.conflicts),
-                                                  Range(p.required_if), Range(p.required_if_not)) : p \in Range(j.props)},
+      [] j.kind = "object" -> ObjectI(j.id, {[PropR(p.name, Norm(p.type), p.required, p.has_default, p.disabled, Range(p.conflicts),
+                                                   Range(p.required_if), Range(p.required_if_not)) EXCEPT !.display = p.display]
+                                                  : p \in Range(j.props)},
                                       j.id_unenforced, j.impl)
       [] j.kind = "ref"    -> Ref(j.id)
       [] j.kind = "scope"  -> Scope(j.root, {Norm(o) : o \in Range(j.objects)})
